@@ -459,16 +459,28 @@ pub fn kernel_state(rng: &mut Rng, kinds: KindMask, triangles: bool, max_n: usiz
 
 /// A kernel call with plausible arguments on `s` (free darts as spares, real edges and faces).
 pub fn kernel_op(rng: &mut Rng, s: &State, which: Option<usize>) -> Option<Op> {
+    let mut pool = free_pool(s);
+    kernel_op_with_pool(rng, s, which, &mut pool, false)
+}
+
+pub fn free_pool(s: &State) -> Vec<u32> {
+    (1..s.n() as u32).filter(|&d| !s.unused[d as usize] && s.is_free(d)).collect()
+}
+
+/// Like `kernel_op`; spare darts are taken from `pool` and, when `consume` is set, removed from
+/// it so that successive calls get disjoint spares (the pattern of benches/src/cut_edges.rs).
+pub fn kernel_op_with_pool(rng: &mut Rng, s: &State, which: Option<usize>, pool: &mut Vec<u32>, consume: bool) -> Option<Op> {
     let n = s.n() as u32;
-    let free: Vec<u32> = (1..n).filter(|&d| !s.unused[d as usize] && s.is_free(d)).collect();
     let linked: Vec<u32> = (1..n).filter(|&d| !s.unused[d as usize] && !s.is_free(d)).collect();
     if linked.is_empty() {
         return None;
     }
-    let take = |rng: &mut Rng, k: usize| -> Vec<u32> {
-        let mut f = free.clone();
-        rng.shuffle(&mut f);
-        let mut v: Vec<u32> = f.into_iter().take(k).collect();
+    let mut take = |rng: &mut Rng, k: usize| -> Vec<u32> {
+        rng.shuffle(pool);
+        let mut v: Vec<u32> = pool.iter().copied().take(k).collect();
+        if consume {
+            pool.retain(|d| !v.contains(d));
+        }
         // wrong counts / unusable spares now and then
         while v.len() < k {
             v.push(if rng.chance(0.5) { 0 } else { *rng.pick(&linked) });
